@@ -1661,7 +1661,7 @@ reg("C16", [eng_abandon, eng_burst, lambda ctx: eng_create_delete_race(ctx), lam
                "suspension points of its handler: that the code suspends exactly where the models have steps is checked "
                "on every run as a syntactic fingerprint generated from /repo's sources "
                "(deltio_suspension_points_as_modelled), not proved semantically.",
-    generated=[("lock-discipline", lockgate.lock_gate)])
+    generated=[("lock-discipline", lockgate.lock_gate, "LockCheck")])
 
 reg("C07", [eng_mailstress, eng_burst, eng_abandon, eng_pull_limit, eng_pushstress, eng_deletestress, eng_nsstress, eng_grpcstress,
             eng_stream_flood],
@@ -1686,7 +1686,7 @@ reg("C07", [eng_mailstress, eng_burst, eng_abandon, eng_pull_limit, eng_pushstre
                "fairness of the tokio scheduler (an enabled step is eventually taken) is assumed, not modelled. The lock "
                "theorems are about the nesting edges a source scanner (lockscan, trusted to over-approximate) extracts "
                "from /repo on every run.",
-    generated=[("lock-discipline", lockgate.lock_gate)])
+    generated=[("lock-discipline", lockgate.lock_gate, "LockCheck")])
 
 
 def eng_requeue_order(ctx):
@@ -1803,4 +1803,11 @@ reg("C14", [eng_push, eng_control_random(None, {"CS"}), lambda ctx: eng_registry
                "and comparing every POST.",
     level_note="Status 102 cannot be produced through a hyper-based client (interim responses are skipped), so it is "
                "covered by the theorem only. Real clock: cases avoid instants near ack deadlines. The order in which the "
-               "real loop visits subscriptions (HashMap order) is not modelled; passes are per subscription.")
+               "real loop visits subscriptions (HashMap order) is not modelled; passes are per subscription. That a pass "
+               "UNDER WAY stops at a deletion is Model/PushPass.v (every schedule of pull / dispatch / answer / deletion "
+               "signal: no POST once deleted - for the protocol 'the whole pass is raced against the signal'); which "
+               "protocol the code follows is read off push_loop.rs on every run by the translator (Gen/PushCheck.v, "
+               "compiled against the suspension points lockscan has just generated), and the push-delete stream runs the "
+               "real loop with a deletion in the middle of a page of 30-60 messages (real time, judged on the endpoint's "
+               "record, one POST on the wire allowed).",
+    generated=[("push-pass-guard", lockgate.push_gate, "PushCheck")])
